@@ -12,7 +12,7 @@ CHECKS = {
  "C01": ("order laws (reflexive, sign-antisymmetric, transitive, congruent, build metadata ignored) asserted on the real compare over symbolic "
          "versions: struct-level templates with full-width symbolic numbers for the SemVer-shaped systems plus a coverage lemma over all byte "
          "strings, template strings through the real parser for Maven, PyPI and RubyGems", "§7 C01, §11"),
- "C02": ("differential against transcriptions of SemVer 2.0 §11 / NuGet SemVer2 (npm, Cargo, Go, NuGet; incl. ten-digit numeric identifiers), packaging's _cmpkey (PyPI) and Maven's ComparableVersion (3.6-3.8.6 algorithm on the version text, counterexamples adjudicated with the maven-artifact 3.8.7 jar; '.'-joined qualifiers, which the two Maven releases order differently, are left out); RubyGems ordering is not decided (no transcription built)", "§7 C02, §11"),
+ "C02": ("differential against transcriptions of SemVer 2.0 §11 / NuGet SemVer2 (npm, Cargo, Go, NuGet; incl. ten-digit numeric identifiers), packaging's _cmpkey (PyPI), Maven's ComparableVersion (3.6-3.8.6 algorithm on the version text, counterexamples adjudicated with the maven-artifact 3.8.7 jar; '.'-joined qualifiers, which the two Maven releases order differently, are left out) and the published Gem::Version#<=> (RubyGems) over template pairs", "§7 C02, §11"),
  "C03": ("differential against transcriptions of node-semver 7 (desugaring of every comparator to primitive bounds + prerelease admission rule), the semver crate's VersionReq for Cargo (comma lists, default caret, partial versions, wildcards) through the same desugaring, PEP 440 specifier clauses on final releases and Maven VersionRange over structured requirement templates", "§7 C03, §11"),
  "C04": ("every implicit panic check and loop bound on every feasible path of the text entry points of util/semver (9 systems), util/pypi, the PyPI marker parser, util/resolve/schema (ParseResolve, New), the deptest/versiontest attribute parsers, resolve.MavenDepTypeToDependency and util/maven (profile activation, project keys, MergeParent+Interpolate+ProcessDependencies on a project with arbitrary-byte fields); inputs = all byte strings up to the stated lengths (grammar-alphabet bytes for the longer schema texts and row templates). Entry points built on net/mail, archive/*, encoding/xml and regexp are outside", "§7 C04, §11"),
  "C05": ("sequential clauses for all three resolvers (whole Resolve executed symbolically on skeleton universes of both generations): the client reports the same requirements and versions in the same order after Resolve; asking again, resolving another root in between on the same resolver and inserting the versions in the opposite order give the same graph, and the other root's graph equals a fresh resolver's. Concurrency clause decided sequentially as a lockset discipline on every path of one Resolve call (state that existed before the call is written only under an exclusive lock or through sync/atomic, and read under a lock where it is written), counterexamples replayed as 8 concurrent calls under the race detector; goroutine interleavings themselves are not explored (the engine has no scheduler)", "§7 C05, §11"),
